@@ -71,8 +71,8 @@ pub fn dfa_nfa(d: &DfaSnap, cfg: &Cfg, k: &Classes, it: &mut Interner, drop_init
 }
 
 /// Reference trie with grex's *recorded* defective merge rule (KF-range-merge): edges are searched
-/// newest-first; same value and stored max + 1 == new max => widen to [min, max] and reuse the target;
-/// same value and same max => reuse; else add a new edge. With `merge` off it is the exact trie keyed by
+/// newest-first; same character list and stored max + 1 == new max => widen to [min, max] and reuse the target;
+/// same character list and same max => reuse; else add a new edge. With `merge` off it is the exact trie keyed by
 /// (value, min, max).
 pub fn model_trie(clusters: &[Vec<GSnap>], merge: bool) -> DfaSnap {
     let mut edges: Vec<Vec<(GSnap, usize)>> = vec![vec![]];
@@ -83,7 +83,7 @@ pub fn model_trie(clusters: &[Vec<GSnap>], merge: bool) -> DfaSnap {
             let mut found = None;
             for ei in (0..edges[cur].len()).rev() {
                 let (eg, dst) = edges[cur][ei].clone();
-                if eg.chars.join("") != g.chars.join("") {
+                if eg.chars != g.chars {
                     continue;
                 }
                 if merge {
